@@ -154,6 +154,9 @@ def generate(rng, idx, tier, variant):
             ops.append({'op': 'grow_endogenous', 'who': rng.choice(['_'] + ids)})
         elif r < 0.42 and ids:
             ops.append({'op': 'replace_submodel', 'who': rng.choice(ids)})
+        elif r < 0.50 and ids:
+            # a submodel's (or the linker's) own convergence-check list edited after construction
+            ops.append({'op': 'edit_check', 'who': rng.choice(['_'] + ids + ids), 'how': rng.choice(['append', 'remove']), 'k': rng.randrange(4)})
     if rng.random() < 0.5:
         # linker-of-one twin against the bare model
         ms = S.gen_spec(rng, 'solver', tier)
@@ -472,6 +475,21 @@ def execute(schedule, ctx):
                     ctx.probe('history:endogenous-list-grown')
             ctx.log(step, 'grow_endogenous')
             ctx.outcome('grow_endogenous', 'ok')
+            continue
+        if kind == 'edit_check':
+            target = L if op['who'] == '_' else subs.get(op['who'])
+            if target is not None and isinstance(target.__dict__.get('check'), list):
+                lst = target.__dict__['check']
+                if op['how'] == 'append':
+                    extra = [x for x in target.__dict__['index'] if x not in lst and x not in ('status', 'iterations') and target.__dict__['_' + x].dtype.kind in 'fi']
+                    if extra:
+                        lst.append(extra[op['k'] % len(extra)])
+                        ctx.probe('history:instance-check-append')
+                elif lst:
+                    lst.remove(lst[op['k'] % len(lst)])
+                    ctx.probe('history:instance-check-remove')
+            ctx.log(step, 'edit_check')
+            ctx.outcome('edit_check', 'ok')
             continue
         if kind == 'replace_submodel':
             if op['who'] in subs:
